@@ -1,5 +1,6 @@
 import Amgcl.Model.RelaxIlu
 import Amgcl.Proofs.RelaxIlu
+import Amgcl.Proofs.KernelsCommon
 import Mathlib.Algebra.BigOperators.Intervals
 import Mathlib.Data.List.GetD
 import Mathlib.Tactic.LinearCombination
@@ -271,6 +272,278 @@ theorem iluElim_spec (U : Array (Row K)) (D : Vec K) (i : Nat) (work : Array (Op
         rw [hd j (by omega), hle j (by omega), hw1, getD_setIfInBounds_ne _ _ _ _ _ (by omega)]
 
 end elim
+
+/-! ### 4. list lemmas for the finished row -/
+section lists
+variable {K : Type} [Field K] [DecidableEq K]
+
+/-- dropping exact zeros (and the columns outside `p`) does not change the denoted row on the columns in `p` -/
+theorem rowGet_filter (p : Nat → Bool) (r : Row K) (c : Nat) :
+    rowGet (r.filter (fun cv => p cv.1 && !(decide (cv.2 = 0)))) c = if p c = true then rowGet r c else 0 := by
+  induction r with
+  | nil => simp
+  | cons cv t ih =>
+    rw [List.filter_cons]
+    by_cases hk : (p cv.1 && !(decide (cv.2 = 0))) = true
+    · rw [if_pos hk, rowGet_cons, rowGet_cons, ih]
+      have hp : p cv.1 = true := by simp at hk; exact hk.1
+      by_cases hc : cv.1 = c
+      · rw [if_pos hc, if_pos hc]; rw [hc] at hp; simp [hp]
+      · rw [if_neg hc, if_neg hc]
+    · rw [if_neg hk, ih, rowGet_cons]
+      by_cases hc : cv.1 = c
+      · rw [if_pos hc]
+        by_cases hp : p c = true
+        · have hz : cv.2 = 0 := by
+            rw [← hc] at hp
+            simp [hp] at hk; exact hk
+          rw [if_pos hp, if_pos hp, hz]; ring
+        · rw [if_neg hp, if_neg hp]
+      · rw [if_neg hc]
+
+theorem rowGet_zip_not_mem (cs : List Nat) (ws : List K) (c : Nat) (h : c ∉ cs) : rowGet (cs.zip ws) c = 0 := by
+  apply rowGet_zero_of_forall_ne
+  intro cv hcv e
+  apply h
+  rw [← e]
+  exact (List.of_mem_zip hcv).1
+
+theorem rowGet_zip (cs : List Nat) (ws : List K) (hlen : cs.length = ws.length) (hnd : cs.Nodup) (s : Nat)
+    (hs : s < cs.length) : rowGet (cs.zip ws) (cs.getD s 0) = ws.getD s 0 := by
+  induction cs generalizing ws s with
+  | nil => simp at hs
+  | cons c t ih =>
+    cases ws with
+    | nil => simp at hlen
+    | cons w wt =>
+      rw [List.nodup_cons] at hnd
+      rw [List.zip_cons_cons, rowGet_cons]
+      cases s with
+      | zero => simp [rowGet_zip_not_mem t wt c hnd.1]
+      | succ s' =>
+        have hs' : s' < t.length := by simpa using hs
+        have hne : c ≠ t.getD s' 0 := by
+          intro e; apply hnd.1; rw [e, List.getD_eq_getElem _ _ hs']; exact List.getElem_mem hs'
+        simp only [List.getD_cons_succ]
+        rw [if_neg hne]
+        exact ih wt (by simpa using hlen) hnd.2 s' hs'
+
+/-- a row product against an arbitrary column function is the sum over the denoted row -/
+theorem listSum_eq_sum (r : Row K) (g : Nat → K) (m : Nat) (h : ∀ cv ∈ r, cv.1 < m) :
+    (r.map (fun cv => cv.2 * g cv.1)).sum = ∑ k ∈ range m, rowGet r k * g k := by
+  induction r with
+  | nil => simp
+  | cons cv t ih =>
+    have hcv : cv.1 < m := h cv List.mem_cons_self
+    have ht : ∀ c ∈ t, c.1 < m := fun c hc => h c (List.mem_cons_of_mem _ hc)
+    simp only [List.map_cons, List.sum_cons, rowGet_cons]
+    rw [ih ht]
+    have : ∑ j ∈ range m, (if cv.1 = j then cv.2 + rowGet t j else rowGet t j) * g j
+        = ∑ j ∈ range m, ((if cv.1 = j then cv.2 * g j else 0) + rowGet t j * g j) := by
+      apply sum_congr rfl; intro j _; split <;> ring
+    rw [this, sum_add_distrib, sum_ite_eq]
+    simp [hcv]
+
+/-- the sum over a filtered list as a sum over positions -/
+theorem filter_map_sum {α : Type} (d : α) (L : List α) (P : α → Bool) (f : α → K) :
+    ((L.filter P).map f).sum = ∑ s ∈ range L.length, if P (L.getD s d) = true then f (L.getD s d) else 0 := by
+  induction L with
+  | nil => simp
+  | cons a t ih =>
+    rw [List.length_cons, sum_range_succ', List.filter_cons]
+    simp only [List.getD_cons_succ, List.getD_cons_zero]
+    by_cases hp : P a = true
+    · rw [if_pos hp, if_pos hp, List.map_cons, List.sum_cons, ih]; ring
+    · rw [if_neg hp, if_neg hp, ih]; ring
+
+theorem sum_range_ite_lt (f : Nat → K) (q m : Nat) (h : q ≤ m) :
+    ∑ s ∈ range m, (if s < q then f s else 0) = ∑ s ∈ range q, f s := by
+  induction m with
+  | zero => have : q = 0 := by omega
+            subst this; simp
+  | succ k ih =>
+    rcases Nat.lt_or_ge q (k + 1) with h1 | h1
+    · rw [sum_range_succ, ih (by omega), if_neg (by omega)]; ring
+    · have : q = k + 1 := by omega
+      subst this
+      apply sum_congr rfl
+      intro s hs; rw [if_pos (mem_range.mp hs)]
+
+theorem getD_zip (cs : List Nat) (ws : List K) (hlen : cs.length = ws.length) (s : Nat) (hs : s < cs.length) :
+    (cs.zip ws).getD s (0, 0) = (cs.getD s 0, ws.getD s 0) := by
+  rw [List.getD_eq_getElem _ _ (by simp [← hlen]; exact hs), List.getElem_zip,
+    List.getD_eq_getElem _ _ hs, List.getD_eq_getElem _ _ (by omega)]
+
+end lists
+
+/-! ### 5. the finished row satisfies the row equations -/
+section row
+variable {K : Type} [Field K] [DecidableEq K]
+
+theorem toList_getD (w : Array K) (s : Nat) : w.toList.getD s 0 = w.getD s 0 := by
+  rw [List.getD_eq_getElem?_getD, Array.getD_eq_getD_getElem?, Array.getElem?_toList]
+
+theorem strictCols_mono (r : Row K) (h : K2.StrictCols r) (p p' : Nat) (hpp : p < p') (hp' : p' < r.length) :
+    (r.map (·.1)).getD p 0 < (r.map (·.1)).getD p' 0 := by
+  unfold K2.StrictCols at h
+  rw [List.pairwise_iff_getElem] at h
+  have := h p p' (by omega) hp' hpp
+  rw [List.getD_eq_getElem _ _ (by simp; omega), List.getD_eq_getElem _ _ (by simpa using hp')]
+  simpa using this
+
+/-- Row `i` of the factorisation: with the finished rows `U[k]` (strictly upper) and non-zero stored pivots `D[c]`
+(`c < i`), the new rows `l`, `u` and the new inverted pivot `d` satisfy, for every stored entry `(c, v)` of row `i`
+of `A`, the equation of position `(i, c)` of `(I+L)(D⁻¹+U) = A`. -/
+theorem iluRow_spec (n : Nat) (U : Array (Row K)) (D : Vec K) (i : Nat) (r : Row K)
+    (hsorted : K2.StrictCols r) (hlt : ∀ cv ∈ r, cv.1 < n)
+    (hU : ∀ k, ∀ cv ∈ U.getD k [], k < cv.1) (hD : ∀ c, c < i → D.getD c 0 ≠ 0)
+    (l u : Row K) (d : K) (h : iluRow n U D i r = .ok (l, d, u)) :
+    (∀ cv ∈ l, cv.1 < i) ∧ (∀ cv ∈ u, i < cv.1 ∧ cv.1 < n) ∧ d ≠ 0 ∧
+    ∀ cv ∈ r, (if cv.1 = i then 1 / d else 0) + rowGet u cv.1 + rowGet l cv.1 * (1 / D.getD cv.1 0)
+        + ∑ k ∈ range i, rowGet l k * ugetA U k cv.1 = cv.2 := by
+  have hnd : (r.map (·.1)).Nodup := hsorted.nodup
+  have hw : WorkOK (iluWork n r) (r.map (·.1)) := iluWork_ok n r hnd hlt
+  have hm : (r.map (·.1)).length = r.length := by simp
+  have hmono : ∀ p p', p < p' → p' < (r.map (·.1)).length →
+      (r.map (·.1)).getD p 0 < (r.map (·.1)).getD p' 0 :=
+    fun p p' h1 h2 => strictCols_mono r hsorted p p' h1 (by omega)
+  unfold iluRow at h
+  simp only [] at h
+  cases he : iluElim U D i (iluWork n r) (r.map (·.1)) (r.map (·.2)).toArray with
+  | precondition => rw [he] at h; exact absurd h (by simp)
+  | undefinedInput => rw [he] at h; exact absurd h (by simp)
+  | ok w =>
+    rw [he] at h
+    simp only [] at h
+    have hs0 : (r.map (·.2)).toArray.size = (r.map (·.1)).length := by simp
+    have he' : iluElim U D i (iluWork n r) ((r.map (·.1)).drop 0) (r.map (·.2)).toArray = .ok w := by
+      simpa using he
+    obtain ⟨q, _, hq2, hq3, hq4, ha, hb, hc, _⟩ :=
+      iluElim_spec U D i (iluWork n r) (r.map (·.1)) hw hmono hU 0 _ w hs0 he'
+    have hwq : (iluWork n r).getD i none = some q := by rw [← hq3]; exact hw.of_pos q hq2
+    rw [hwq] at h
+    simp only [] at h
+    injection h with h
+    have hl : l = ((r.map (·.1)).zip w.toList).filter
+        (fun cv => decide (cv.1 < i) && !(decide (cv.2 = 0))) := (congrArg Prod.fst h).symm
+    have hd : d = w.getD q 0 := (congrArg (fun t => t.2.1) h).symm
+    have hu : u = ((r.map (·.1)).zip w.toList).filter
+        (fun cv => decide (i < cv.1) && !(decide (cv.2 = 0))) := (congrArg (fun t => t.2.2) h).symm
+    have hlen : (r.map (·.1)).length = w.toList.length := by simp [hq4]
+    -- the initial slots are the values of the row
+    have hw0 : ∀ s, s < r.length → (r.map (·.2)).toArray.getD s 0 = (r.map (·.2)).getD s 0 := by
+      intro s _; rw [← toList_getD]
+    -- columns left / right of the diagonal by position
+    have hcol_lt : ∀ s, s < r.length → ((r.map (·.1)).getD s 0 < i ↔ s < q) := by
+      intro s hs
+      constructor
+      · intro hlt'
+        by_contra hge
+        rcases Nat.lt_or_eq_of_le (Nat.le_of_not_lt hge) with h1 | h1
+        · have := hmono q s h1 (by omega); omega
+        · rw [← h1, hq3] at hlt'; omega
+      · intro hsq; have := hmono s q hsq hq2; omega
+    have hcol_gt : ∀ s, s < r.length → (i < (r.map (·.1)).getD s 0 ↔ q < s) := by
+      intro s hs
+      constructor
+      · intro hgt
+        by_contra hle
+        rcases Nat.lt_or_eq_of_le (Nat.le_of_not_lt hle) with h1 | h1
+        · have := hmono s q h1 hq2; omega
+        · rw [h1, hq3] at hgt; omega
+      · intro hqs; have := hmono q s hqs (by omega); omega
+    -- denoted entries of the new rows at a pattern column
+    have hgetl : ∀ s, s < r.length → rowGet l ((r.map (·.1)).getD s 0) = if s < q then w.getD s 0 else 0 := by
+      intro s hs
+      rw [hl, rowGet_filter (fun c => decide (c < i)), rowGet_zip _ _ hlen hnd s (by omega), toList_getD]
+      by_cases hsq : s < q
+      · rw [if_pos hsq, if_pos (by simpa using (hcol_lt s hs).2 hsq)]
+      · rw [if_neg hsq, if_neg (by simpa using fun h' => hsq ((hcol_lt s hs).1 h'))]
+    have hgetu : ∀ s, s < r.length → rowGet u ((r.map (·.1)).getD s 0) = if q < s then w.getD s 0 else 0 := by
+      intro s hs
+      rw [hu, rowGet_filter (fun c => decide (i < c)), rowGet_zip _ _ hlen hnd s (by omega), toList_getD]
+      by_cases hsq : q < s
+      · rw [if_pos hsq, if_pos (by simpa using (hcol_gt s hs).2 hsq)]
+      · rw [if_neg hsq, if_neg (by simpa using fun h' => hsq ((hcol_gt s hs).1 h'))]
+    have hlcols : ∀ cv ∈ l, cv.1 < i := by
+      intro cv hcv; rw [hl, List.mem_filter] at hcv
+      have := hcv.2
+      simp only [Bool.and_eq_true, decide_eq_true_eq] at this
+      exact this.1
+    have hucols : ∀ cv ∈ u, i < cv.1 ∧ cv.1 < n := by
+      intro cv hcv
+      rw [hu, List.mem_filter] at hcv
+      have h2 := hcv.2
+      simp only [Bool.and_eq_true, decide_eq_true_eq] at h2
+      refine ⟨h2.1, ?_⟩
+      have := (List.of_mem_zip hcv.1).1
+      obtain ⟨e, he1, he2⟩ := List.mem_map.mp this
+      rw [← he2]; exact hlt e he1
+    -- the elimination sum over the new `L` row, by positions
+    have hsum : ∀ g : Nat → K, ∑ k ∈ range i, rowGet l k * g k
+        = ∑ s ∈ range q, w.getD s 0 * g ((r.map (·.1)).getD s 0) := by
+      intro g
+      rw [← listSum_eq_sum l g i hlcols, hl, filter_map_sum ((0 : Nat), (0 : K))]
+      have hlz : ((r.map (·.1)).zip w.toList).length = r.length := by simp [← hlen]
+      rw [hlz, ← sum_range_ite_lt _ q r.length (by omega)]
+      apply sum_congr rfl
+      intro s hs
+      have hs' := mem_range.mp hs
+      rw [getD_zip _ _ hlen s (by omega), toList_getD]
+      simp only []
+      by_cases hsq : s < q
+      · rw [if_pos hsq]
+        by_cases hz : w.getD s 0 = 0
+        · rw [hz]; simp
+        · rw [if_pos]
+          simp only [Bool.and_eq_true, decide_eq_true_eq, Bool.not_eq_true', decide_eq_false_iff_not]
+          exact ⟨(hcol_lt s hs').2 hsq, hz⟩
+      · rw [if_neg hsq, if_neg]
+        simp only [Bool.and_eq_true, decide_eq_true_eq, not_and]
+        intro h'; exact absurd ((hcol_lt s hs').1 h') hsq
+    have hdne : d ≠ 0 := by
+      rw [hd, hb.2]; exact one_div_ne_zero hb.1
+    refine ⟨hlcols, hucols, hdne, ?_⟩
+    intro cv hcv
+    obtain ⟨s, hs, hrs⟩ := List.getElem_of_mem hcv
+    have hc1 : cv.1 = (r.map (·.1)).getD s 0 := by
+      rw [List.getD_eq_getElem _ _ (by simpa using hs), List.getElem_map, hrs]
+    have hc2 : cv.2 = (r.map (·.2)).toArray.getD s 0 := by
+      rw [hw0 s hs, List.getD_eq_getElem _ _ (by simpa using hs), List.getElem_map, hrs]
+    rw [hsum, hc1, hgetl s hs, hgetu s hs, hc2]
+    rcases Nat.lt_trichotomy s q with hsq | hsq | hsq
+    · -- a column left of the diagonal
+      obtain ⟨hci, heq⟩ := ha s (Nat.zero_le _) hsq
+      have hne : (r.map (·.1)).getD s 0 ≠ i := by omega
+      have hDne := hD _ hci
+      rw [if_neg hne, if_neg (by omega), if_pos hsq]
+      have hsplit := Finset.sum_range_add_sum_Ico
+        (fun s' => w.getD s' 0 * ugetA U ((r.map (·.1)).getD s' 0) ((r.map (·.1)).getD s 0)) (Nat.le_of_lt hsq)
+      have hzero : ∑ s' ∈ Ico s q, w.getD s' 0 * ugetA U ((r.map (·.1)).getD s' 0) ((r.map (·.1)).getD s 0) = 0 := by
+        apply sum_eq_zero
+        intro s' hs'
+        rw [mem_Ico] at hs'
+        rw [ugetA_zero U hU _ _ ?_]; · ring
+        rcases Nat.lt_or_eq_of_le hs'.1 with h1 | h1
+        · exact Nat.le_of_lt (hmono s s' h1 (by omega))
+        · rw [h1]
+      rw [hzero, add_zero] at hsplit
+      rw [← hsplit, heq, Finset.range_eq_Ico]
+      field_simp
+      ring
+    · -- the diagonal
+      subst hsq
+      rw [if_pos hq3, if_neg (lt_irrefl _), hd, hb.2, hq3, Finset.range_eq_Ico]
+      have := hb.1
+      field_simp
+      ring
+    · -- a column right of the diagonal
+      have hne : (r.map (·.1)).getD s 0 ≠ i := by
+        have := (hcol_gt s hs).2 hsq; omega
+      rw [if_neg hne, if_pos hsq, if_neg (by omega), hc s hsq (by omega), Finset.range_eq_Ico]
+      ring
+
+end row
 
 end Relax
 end Amgcl
